@@ -636,6 +636,11 @@ class WassersteinCase(Case):
         for i in range(c.n_vec):
             if not np.any(c.vectors[i]):
                 c.vectors[i, 0] = 1.0
+        # sometimes one support point lies far away from everything else (un-normalised embeddings): under a
+        # euclidean cost exp(-cost/regularisation) then underflows for it
+        c.outlier = tape.chance("ot.outlier", 1, 6)
+        if c.outlier:
+            c.vectors[c.n_vec - 1] *= 512.0
         n_rows = tape.between("ot.nrows", 7, 13)
         c.base = draw_counts(tape, "ot.dist", n_rows, c.n_vec, min(4, c.n_vec), allow_empty_row=False)
         c.pool = list(range(n_rows))
@@ -702,7 +707,7 @@ class WassersteinCase(Case):
             c.arpack_degenerate = degenerate_spectrum(tr, 1)
         c.desc.update(params=dict(c.params), n_vectors=c.n_vec, dim=c.dim, n_rows=n_rows, ntrain=ntrain,
                       rows_per_block=rows_per_block, user_reference=c.user_reference, in_format=c.in_format,
-                      use_cachedir=c.use_cachedir, arpack_degenerate_spectrum=c.arpack_degenerate)
+                      use_cachedir=c.use_cachedir, arpack_degenerate_spectrum=c.arpack_degenerate, far_outlier_vector=c.outlier)
         return c
 
     def ctor_kwargs(self, pobjs):
